@@ -4,7 +4,7 @@ from harness import gen_seq
 from runner import Case, CaseSet
 
 ID = 'C16'
-OBLIGATIONS = ['Props/C16.v', 'Props/Tie/phospho_tie.v', 'Props/Tie/charge_tie.v', 'Props/Tie/minipy_phospho_tie.v']
+OBLIGATIONS = ['Props/C16.v', 'Props/Tie/phospho_tie.v', 'Props/Tie/charge_tie.v', 'Props/Tie/minipy_phospho_tie.v', 'Props/Tie/minipy_phoskappa_tie.v']
 RULE = ('S/T/Y-rich random sequences (N 1..24) x histories of 1..6 set/clear calls; requested positions drawn from '
         '{0, -1, -N, -N-1, 1, N, N+1, N+7, duplicates, non-STY positions, all STY positions}, passed as int / list / tuple; '
         'after every call get_phosphosites, get_phosphosequence, get_sequence are recorded; read-only query points (get_kappa, get_kappa_after_phosphorylation, in either order) are interleaved; at the end kappa_after, all STY '
